@@ -467,6 +467,49 @@ fn answer(a: &[&str]) -> String {
                 }
             }
         }
+        // apply_leaf <action> <ggggeeee> <new VR> <new u16 value> <new text hex> [<ggggeeee> <u16 value>]... -> "DUMP ggggeeee:VR:kind:payload;..." | "ERR <e>"
+        //   the object holds the listed elements (VR US, LO alternating, one U16 value each); the action is applied to the addressed tag
+        "apply_leaf" => {
+            use dicom_core::ops::{ApplyOp, AttributeAction, AttributeOp};
+            use dicom_core::value::Value;
+            use dicom_core::{DataElement, VR};
+            use dicom_object::InMemDicomObject;
+            use std::str::FromStr;
+            let tg = |x: &str| Tag(u16::from_str_radix(&x[..4], 16).unwrap(), u16::from_str_radix(&x[4..], 16).unwrap());
+            let target = tg(a[2]);
+            let newvr = VR::from_str(a[3]).unwrap();
+            let newval: u16 = a[4].parse().unwrap();
+            let newtext = String::from_utf8(unhex(a[5])).unwrap();
+            let mut obj = InMemDicomObject::new_empty();
+            let mut k = 0;
+            let mut i = 6;
+            while i + 1 < a.len() {
+                let v: u16 = a[i + 1].parse().unwrap();
+                obj.put(DataElement::new(tg(a[i]), if k % 2 == 0 { VR::US } else { VR::LO }, PrimitiveValue::U16([v].into_iter().collect())));
+                k += 1; i += 2;
+            }
+            let pv = PrimitiveValue::U16([newval].into_iter().collect());
+            let action = match a[1] {
+                "Remove" => AttributeAction::Remove, "Empty" => AttributeAction::Empty, "SetVr" => AttributeAction::SetVr(newvr),
+                "Set" => AttributeAction::Set(pv), "SetStr" => AttributeAction::SetStr(newtext.into()), "SetIfMissing" => AttributeAction::SetIfMissing(pv),
+                "SetStrIfMissing" => AttributeAction::SetStrIfMissing(newtext.into()), "Replace" => AttributeAction::Replace(pv), _ => AttributeAction::ReplaceStr(newtext.into()),
+            };
+            if let Err(e) = obj.apply(AttributeOp::new(target, action)) { return format!("ERR {}", e).replace(' ', "_").replacen('_', " ", 1); }
+            let mut out = Vec::new();
+            for e in obj.iter() {
+                let h = e.header();
+                let (kind, payload) = match e.value() {
+                    Value::Primitive(PrimitiveValue::U16(v)) => ("U16", v.iter().map(|x| x.to_string()).collect::<Vec<_>>().join(",")),
+                    Value::Primitive(PrimitiveValue::Str(s)) => ("Str", hex(s.as_bytes())),
+                    Value::Primitive(PrimitiveValue::Empty) => ("Empty", String::new()),
+                    Value::Primitive(_) => ("OtherPrimitive", String::new()),
+                    Value::Sequence(sq) => ("Sequence", sq.items().len().to_string()),
+                    Value::PixelSequence(_) => ("PixelSequence", String::new()),
+                };
+                out.push(format!("{:04x}{:04x}:{}:{}:{}", h.tag.0, h.tag.1, h.vr.to_string(), kind, payload));
+            }
+            format!("DUMP {}", out.join(";"))
+        }
         // pdu_big <L>: write an A-ASSOCIATE-RQ holding one unknown user sub-item with L content bytes, then read the bytes back
         "pdu_big" => {
             use dicom_ul::pdu::{read_pdu, write_pdu, AssociationRQ, Pdu, PresentationContextProposed, UserVariableItem};
